@@ -383,6 +383,15 @@ impl<'r> G<'r> {
                 let d = self.decl_here(&name, DeclKind::Def, vec!["def".into(), name.clone()], doc, checked);
                 decl = Some(d);
             }
+            2 if self.cfg.paste_head_var && self.rng.chance(1, 2) => {
+                // def <loopvar> # "_sfxN" : the head of the pasted name is a variable
+                self.put(" ");
+                let lv = self.loop_vars.last().unwrap().clone();
+                self.put(&lv);
+                let sfx = self.fresh("sfx");
+                self.put(&format!(" # \"_{}\"", sfx));
+                self.p.features.push("def:pasted-name-headed-by-variable");
+            }
             2 => {
                 self.put(" ");
                 name = format!("{}_", self.fresh("D"));
